@@ -604,7 +604,7 @@ pub fn apply_real(q: &mut Qualifiers, op: &QOp) -> String {
             "()".into()
         },
         QOp::GetTyped(i) => match i {
-            0 => ropt(q.get_typed::<RepositoryUrl>().as_deref()),
+            0 => ropt(q.get_typed::<RepositoryUrl>().as_ref().map(|u| AsRef::<str>::as_ref(u))),
             1 => ropt(q.get_typed::<DownloadUrl>().as_deref()),
             2 => ropt(q.get_typed::<VcsUrl>().as_deref()),
             3 => ropt(q.get_typed::<FileName>().as_deref()),
@@ -812,7 +812,8 @@ pub fn apply_real(q: &mut Qualifiers, op: &QOp) -> String {
                 let d: &str = qk;
                 let a: &str = qk.as_ref();
                 let s = SmallString::from(qk);
-                if d != a || d != s.as_str() || d != qk.as_str() {
+                let s2 = SmallString::from(qk.clone());
+                if d != a || d != s.as_str() || d != qk.as_str() || d != s2.as_str() {
                     return "deref/as_ref/into disagree".into();
                 }
                 format!("{d:?}")
